@@ -550,6 +550,7 @@ func (r *Reader) Document() (*model.Document, error) {
 
 	// Track current list being built
 	var currentList *model.List
+	var currentListStyle string
 	var currentListStartY float64
 
 	finalizeList := func() {
@@ -577,6 +578,10 @@ func (r *Reader) Document() (*model.Document, error) {
 
 			// Check if this is a list item
 			if para.IsListItem {
+				if currentList != nil && para.StyleName != currentListStyle {
+					// a different list starts here
+					finalizeList()
+				}
 				if currentList == nil {
 					isOrdered := false
 					if r.styleResolver != nil && para.StyleName != "" {
@@ -586,6 +591,7 @@ func (r *Reader) Document() (*model.Document, error) {
 					currentList = &model.List{
 						Ordered: isOrdered,
 					}
+					currentListStyle = para.StyleName
 					currentListStartY = yPos
 				}
 
